@@ -514,3 +514,116 @@ Proof.
   intros Hv HB. pose proof (write_int32_bs ROut 0 v B [] Hv HB) as Bs.
   destruct (bsE_sound _ _ _ _ Bs) as (f0 & F). exists f0. intros f Hf. eexists. split; [apply F; exact Hf|]. reflexivity.
 Qed.
+
+(* ================================================================== skipping a string; the growth function *)
+Lemma drop_z_skipn {A} (s : list A) : forall k, 0 <= k -> drop_z s k = skipn (Z.to_nat k) s.
+Proof.
+  induction s as [|x s IH]; intros k Hk.
+  - cbn [drop_z]. destruct (k <=? 0); now rewrite skipn_nil.
+  - cbn [drop_z]. destruct (k <=? 0) eqn:E.
+    + assert (k = 0) by lia. subst. reflexivity.
+    + rewrite IH by lia. replace (Z.to_nat k) with (S (Z.to_nat (k - 1))) by lia. reflexivity.
+Qed.
+
+Definition sk (fr : region) (fo : Z) (e l bv : val) (s o : list Z) : state :=
+  {| vars := [("f"%string, VPtr fr fo); ("error"%string, e); ("l"%string, l); (budget_var, bv)]; inb := s; outb := o |}.
+
+Lemma read_int32_err s st : read_int32 false s = Err st -> st = SBDF_ERROR_IO.
+Proof. rewrite read_int32_model. destruct s as [|b0 [|b1 [|b2 [|b3 r]]]]; intros H; now inversion H. Qed.
+
+Lemma de32_range bs : Forall byte bs -> List.length bs = 4%nat -> int_min <= de32 bs <= int_max.
+Proof.
+  intros Hb Hl. destruct bs as [|b0 [|b1 [|b2 [|b3 [|]]]]]; try discriminate.
+  inversion Hb as [|? ? G0 Q0]. inversion Q0 as [|? ? G1 Q1]. inversion Q1 as [|? ? G2 Q2]. inversion Q2 as [|? ? G3 Q3]. unfold byte in *.
+  unfold de32, to_i32, int_min, int_max. cbn [le_dec]. destruct (b0 + 256 * (b1 + 256 * (b2 + 256 * (b3 + 256 * 0))) <? 2147483648) eqn:E; lia.
+Qed.
+
+Lemma skip_string_bs fr fo e l bv s o : Forall byte s ->
+  match skip_string false s with
+  | Ok (_, s') => exists e' l', bsE prog_env (fbody prog_sbdf_skip_string) (sk fr fo e l bv s o) (OReturn (VInt SBDF_OK) (sk fr fo e' l' bv s' o))
+  | Err st => exists e' l' s', bsE prog_env (fbody prog_sbdf_skip_string) (sk fr fo e l bv s o) (OReturn (VInt st) (sk fr fo e' l' bv s' o))
+  end.
+Proof.
+  intros Hs. unfold skip_string, rd_bind, rfail, fseek_cur. cbn [fbody prog_sbdf_skip_string]. unfold sk.
+  pose proof (read_int32_bs fr ROut fo 0 VUndef bv s o Hs) as R.
+  pose proof (read_int32_model s) as M.
+  destruct (read_int32 false s) as [[x s1]|st] eqn:ER.
+  - assert (Hx : int_min <= x <= int_max).
+    { destruct s as [|b0 [|b1 [|b2 [|b3 r]]]]; try discriminate. inversion M. subst.
+      apply de32_range; [|reflexivity]. inversion Hs as [|? ? G0 Q0]. inversion Q0 as [|? ? G1 Q1]. inversion Q1 as [|? ? G2 Q2]. inversion Q2 as [|? ? G3 Q3].
+      subst. constructor; [exact G0|]. constructor; [exact G1|]. constructor; [exact G2|]. constructor; [exact G3|constructor]. }
+    destruct (x <? 0) eqn:Ex.
+    + do 3 eexists. eapply bsE_seq; [eapply bsE_seq; [eapply bsE_decl0; evi; reflexivity|eapply bsE_decl0; evi; reflexivity]|].
+      eapply bsE_seq; [eapply bsE_seq; [eapply bsE_call; [reflexivity|evci; reflexivity|reflexivity|exact R|unfold ri; evci; reflexivity]|no_err]|].
+      eapply bsE_seq_ret. eapply bsE_if; [evi; chk7; evi; rewrite Ex; reflexivity|reflexivity|]. eapply bsE_return. evi. chk7. reflexivity.
+    + do 2 eexists. eapply bsE_seq; [eapply bsE_seq; [eapply bsE_decl0; evi; reflexivity|eapply bsE_decl0; evi; reflexivity]|].
+      eapply bsE_seq; [eapply bsE_seq; [eapply bsE_call; [reflexivity|evci; reflexivity|reflexivity|exact R|unfold ri; evci; reflexivity]|no_err]|].
+      eapply bsE_seq; [eapply bsE_if; [evi; chk7; evi; rewrite Ex; reflexivity|reflexivity|apply bsE_skip]|].
+      eapply bsE_seq; [eapply bsE_if; [evi; replace (0 <=? x) with true by lia; reflexivity|reflexivity|apply bsE_skip]|].
+      eapply bsE_cast_o; [eapply bsE_return; evi; chk7; reflexivity|]. cbn [inb]. rewrite drop_z_skipn by lia. reflexivity.
+  - destruct R as (c' & s1 & B). pose proof (read_int32_err s st ER). subst st.
+    do 3 eexists. eapply bsE_seq; [eapply bsE_seq; [eapply bsE_decl0; evi; reflexivity|eapply bsE_decl0; evi; reflexivity]|].
+    eapply bsE_seq_ret. eapply bsE_seq; [eapply bsE_call; [reflexivity|evci; reflexivity|reflexivity|exact B|unfold ri; evci; reflexivity]|]. ret_err.
+Qed.
+
+(* ---- sbdf_calculate_array_capacity ---- *)
+Definition cap_st (size c : Z) : state :=
+  {| vars := [("size"%string, VInt size); ("cap"%string, VInt c); (budget_var, VInt 0)]; inb := []; outb := [] |}.
+
+Definition cap_step (c : Z) : Z := 1 + c * 3 / 2.
+Fixpoint cap_iter (f : nat) (c : Z) : Z := match f with O => c | S f' => cap_iter f' (cap_step c) end.
+
+Lemma cap_loop_or_iter f : forall c size, size <= cap_loop f c size \/ cap_loop f c size = cap_iter f c.
+Proof.
+  induction f as [|f IH]; intros c size; cbn [cap_loop cap_iter]; [now right|].
+  destruct (c <? size) eqn:E; [apply IH|left; lia].
+Qed.
+
+Lemma cap_loop_enough size : size <= 715827882 -> size <= array_capacity size.
+Proof.
+  intros H. unfold array_capacity. destruct (cap_loop_or_iter 64 0 size) as [G|G]; [exact G|].
+  rewrite G. assert (E : 715827882 <= cap_iter 64 0) by (vm_compute; discriminate). lia.
+Qed.
+
+Lemma cap_loop_prog f : forall c size, 0 <= c -> size <= 715827882 -> size <= cap_loop f c size ->
+  bsE prog_env (loop2 (fbody prog_sbdf_calculate_array_capacity)) (cap_st size c) (ONormal (cap_st size (cap_loop f c size))).
+Proof.
+  cbn [loop2 fbody prog_sbdf_calculate_array_capacity].
+  induction f as [|f IH]; intros c size Hc Hs Hen; cbn [cap_loop] in *.
+  - unfold cap_st. eapply bsE_while_f; [evi; reflexivity|]. cbn [truth b2z]. replace (c <? size) with false by lia. reflexivity.
+  - destruct (c <? size) eqn:E.
+    + assert (Hq : Z.quot (c * 3) 2 = c * 3 / 2) by (apply Z.quot_div_nonneg; lia).
+      eapply bsE_while_t.
+      * unfold cap_st. evi. reflexivity.
+      * cbn [truth b2z]. rewrite E. reflexivity.
+      * eapply bsE_expr. unfold cap_st. evi. chk7. evi. chk7. evi. change (2 =? 0) with false. cbv iota. rewrite Hq. chk7. evi. chk7. reflexivity.
+      * apply IH; [unfold cap_step; lia|exact Hs|exact Hen].
+    + unfold cap_st. eapply bsE_while_f; [evi; reflexivity|]. cbn [truth b2z]. rewrite E. reflexivity.
+Qed.
+
+Theorem capacity_source size : int_min <= size <= 715827882 ->
+  exists f0, forall f, (f0 <= f)%nat -> exists fin,
+    callE prog_env f prog_sbdf_calculate_array_capacity [VInt size] [] 0 = OReturn (VInt (array_capacity size)) fin.
+Proof.
+  intros Hs. pose proof (cap_loop_enough size ltac:(lia)) as En. unfold array_capacity in *.
+  pose proof (cap_loop_prog 64 0 size ltac:(lia) ltac:(lia) En) as L. cbn [loop2 fbody prog_sbdf_calculate_array_capacity] in L.
+  assert (B : exists fin, bsE prog_env (fbody prog_sbdf_calculate_array_capacity)
+     {| vars := [("size"%string, VInt size); ("cap"%string, VUndef); (budget_var, VInt 0)]; inb := []; outb := [] |} (OReturn (VInt (cap_loop 64 0 size)) fin)).
+  { eexists. cbn [fbody prog_sbdf_calculate_array_capacity].
+    eapply bsE_seq; [eapply bsE_decl1; [evi; chk7; reflexivity|evi; reflexivity]|].
+    eapply bsE_seq; [exact L|]. eapply bsE_return. unfold cap_st. evi. reflexivity. }
+  destruct B as (fin & B). destruct (bsE_sound _ _ _ _ B) as (f0 & F). exists f0. intros f Hf. exists fin. apply F. exact Hf.
+Qed.
+
+Theorem skip_string_source s B : Forall byte s ->
+  exists f0, forall f, (f0 <= f)%nat ->
+  match skip_string false s with
+  | Ok (_, s') => exists fin, callE prog_env f prog_sbdf_skip_string [tok] s B = OReturn (VInt SBDF_OK) fin /\ inb fin = s' /\ outb fin = []
+  | Err st => exists fin, callE prog_env f prog_sbdf_skip_string [tok] s B = OReturn (VInt st) fin /\ outb fin = []
+  end.
+Proof.
+  intros Hs. pose proof (skip_string_bs ROut 0 VUndef VUndef (VInt B) s [] Hs) as H.
+  destruct (skip_string false s) as [[x s']|st].
+  - destruct H as (e' & l' & Bs). destruct (bsE_sound _ _ _ _ Bs) as (f0 & F). exists f0. intros f Hf. eexists. split; [apply F; exact Hf|]. split; reflexivity.
+  - destruct H as (e' & l' & s1 & Bs). destruct (bsE_sound _ _ _ _ Bs) as (f0 & F). exists f0. intros f Hf. eexists. split; [apply F; exact Hf|]. reflexivity.
+Qed.
